@@ -1,6 +1,7 @@
 import Driver.Util
 import Exetera.Model.IndexedWriter
-open Lean Exetera Exetera.Storage Exetera.IndexedWriter
+import Exetera.Model.Reader
+open Lean Exetera Exetera.Storage Exetera.IndexedWriter Exetera.Reader
 namespace Driver.C01
 
 def hexDigit (n : Nat) : Char := if n < 10 then Char.ofNat (48 + n) else Char.ofNat (87 + n)
@@ -21,15 +22,33 @@ def itemJson : Except Err Bytes → Json
   | .ok b => Json.str (hex b)
   | .error e => Driver.errJson e
 
-def pairOf : List Nat → Except String (Nat × Nat)
-  | [a, b] => .ok (a, b)
-  | _ => .error "slice must be [a,b]"
+/-- the reader variant of a case: `"reader": "asFound"` runs the readers as they were before NC01b / NC01c -/
+def readerOf (j : Json) : Variant :=
+  match j.getObjValAs? String "reader" with
+  | .ok "asFound" => .asFound
+  | _ => .repaired
 
-def readsJson (writeable : Bool) (ix : List Nat) (vals : Bytes) (slices : List (Nat × Nat)) (items : List Nat) : Json :=
+/-- a slice item `[start, stop]` or `[start, stop, step]`, each an int or null -/
+def sliceOf : List (Option Int) → Except String Item
+  | [a, b] => .ok (.slice a b none)
+  | [a, b, c] => .ok (.slice a b c)
+  | _ => .error "slice must be [start,stop] or [start,stop,step]"
+
+def readG : Except Err Read → Json
+  | .ok (.entry b) => Json.str (hex b)
+  | .ok (.rows rs) => readJson (.ok rs)
+  | .error e => Driver.errJson e
+
+def readsJson (v : Variant) (writeable : Bool) (ix : List Nat) (vals : Bytes) (slices : List Item) (items : List Int) : Json :=
   Json.mkObj [
-    ("all", readJson (getAll writeable ix vals)),
-    ("slices", Json.arr (slices.map (fun p => readJson (getSlice writeable ix vals p.1 p.2))).toArray),
-    ("items", Json.arr (items.map (fun i => itemJson (getItem ix vals i))).toArray)]
+    ("all", readG (getIndexed v writeable ix vals (.slice none none none))),
+    ("slices", Json.arr (slices.map (fun it => readG (getIndexed v writeable ix vals it))).toArray),
+    ("items", Json.arr (items.map (fun i => readG (getIndexed v writeable ix vals (.int i)))).toArray)]
+
+def preadJson : Except Err (PRead Int) → Json
+  | .ok (.scalar x) => Json.num (JsonNumber.fromInt x)
+  | .ok (.array xs) => Driver.ints xs
+  | .error e => Driver.errJson e
 
 def kindOf (kind dtype : String) (len : Nat) : Option Kind :=
   match kind with
@@ -42,19 +61,15 @@ def kindOf (kind dtype : String) (len : Nat) : Option Kind :=
 
 def clsName (c : FieldClass) : String := c.name
 
-def intItem (xs : List Int) (i : Nat) : Json :=
-  match getE xs i "data[i]" with
-  | .ok x => Json.num (JsonNumber.fromInt x)
-  | .error e => Driver.errJson e
-
 def handle : Driver.Handler := fun op j =>
   match op with
   | "c01_indexed" => some do
     let c ← Driver.get? Nat j "c"
     let h5 ← Driver.get? Bool j "h5"
     let parts ← Driver.get? (List (List String)) j "parts"
-    let slices ← (← Driver.get? (List (List Nat)) j "slices").mapM pairOf
-    let items ← Driver.get? (List Nat) j "items"
+    let slices ← (← Driver.get? (List (List (Option Int))) j "slices").mapM sliceOf
+    let items ← Driver.get? (List Int) j "items"
+    let rv := readerOf j
     let enc : List (List String) → List (List Bytes) := fun ps => ps.map (fun p => p.map (fun s => s.toUTF8.data.toList))
     let bparts : List (List Bytes) := enc parts
     -- optional history: several write_part…complete rounds, with or without a new writer object per round
@@ -68,35 +83,44 @@ def handle : Driver.Handler := fun op j =>
       let vals := s.values.contents
       Json.mkObj [("indices", Driver.nats ix), ("values", Json.str (hex vals)), ("len", toJson (fieldLen ix)),
                   ("staged", Driver.nats [s.valueIndex, s.indexIndex]),
-                  ("w", readsJson true ix vals slices items), ("ro", readsJson false ix vals slices items)])
+                  ("w", readsJson rv true ix vals slices items), ("ro", readsJson rv false ix vals slices items)])
       run
   | "c01_plain" => some do
     let h5 ← Driver.get? Bool j "h5"
     let kind ← Driver.get? String j "kind"
     let dtype ← Driver.get? String j "dtype"
     let parts ← Driver.get? (List (List Int)) j "parts"
-    let slices ← (← Driver.get? (List (List Nat)) j "slices").mapM pairOf
-    let items ← Driver.get? (List Nat) j "items"
+    let slices ← (← Driver.get? (List (List (Option Int))) j "slices").mapM sliceOf
+    let items ← Driver.get? (List Int) j "items"
     let v := variantOf j
+    let rv := readerOf j
     let keyRes : Except Err (List Int) ←
       if kind == "categorical" then do
         let kv ← Driver.get? (List Int) j "key_values"
         pure (if h5 then storeKeyValues v dtype kv else .ok kv)
       else pure (.ok [])
-    let res : Except Err (List Int × List Int) :=
+    let res : Except Err (List Int × Arr Int) :=
       match keyRes with
       | .error e => .error e
       | .ok kv =>
         match writeParts v (0 : Int) (Arr.fresh h5) parts with
         | .error e => .error e
-        | .ok a => .ok (kv, a.contents)
-    pure <| Driver.outE (fun (r : List Int × List Int) =>
-      let xs := r.2
+        | .ok a => .ok (kv, a)
+    pure <| Driver.outE (fun (r : List Int × Arr Int) =>
+      let xs := r.2.contents
       Json.mkObj [("data", Driver.ints xs), ("len", toJson xs.length),
                   ("dtype", Json.str (readDtype v h5 dtype (!parts.isEmpty))),
                   ("key_values", Driver.ints r.1),
-                  ("slices", Json.arr (slices.map (fun p => Driver.ints (slice xs p.1 p.2))).toArray),
-                  ("items", Json.arr (items.map (intItem xs)).toArray)]) res
+                  ("slices", Json.arr (slices.map (fun it => preadJson (plainGet rv r.2 it))).toArray),
+                  ("items", Json.arr (items.map (fun i => preadJson (plainGet rv r.2 (.int i)))).toArray)]) res
+  | "c01_pyslice" => some do
+    -- the SPEC itself (Spec/PySlice.lean), compared by the harness with Python's own list.__getitem__
+    let xs ← Driver.get? (List Int) j "xs"
+    let slices ← (← Driver.get? (List (List (Option Int))) j "slices").mapM sliceOf
+    let items ← Driver.get? (List Int) j "items"
+    pure <| Driver.okJson <| Json.mkObj [
+      ("slices", Json.arr (slices.map (fun it => preadJson (numpyGet xs it))).toArray),
+      ("items", Json.arr (items.map (fun i => preadJson (numpyGet xs (.int i)))).toArray)]
   | "c01_dispatch" => some do
     let kind ← Driver.get? String j "kind"
     let dtype ← Driver.get? String j "dtype"
